@@ -336,7 +336,9 @@ pub fn run(cx: &mut Cx) {
                 ErrorKind::MissingParent { .. } => "MissingParent".into(),
                 ErrorKind::CircularExtend { .. } => "CircularExtend".into(),
                 ErrorKind::CircularInclude { .. } => "CircularInclude".into(),
-                ErrorKind::Msg(m) if m.contains("Unknown template") => "UnknownTemplate".into(),
+                // an include of a template that does not exist has no error kind of its own: a plain message, whatever its
+                // wording, stands for it (and is only admissible when the oracle sees such an include)
+                ErrorKind::Msg(_) => "UnknownTemplate".into(),
                 other => format!("OTHER {}", clip(&format!("{other:?}"), 120)),
             }),
         };
